@@ -23,6 +23,6 @@ one() {
   rm -rf $scratch
 }
 export -f one
-ls /verif/seeded | grep -E '^C[0-9]+-[0-9]+$' | grep -E "$re" | xargs -P $jobs -I{} bash -c 'one {}' | sort > $tmp/m.tsv
+ls /verif/seeded | grep -E '^C[0-9]+-[0-9]+$' | grep -E "$re" | xargs -P $jobs -I{} bash -c 'one {}' | tee -a /tmp/matrix-partial.tsv | sort > $tmp/m.tsv
 if [ "$re" = "." ]; then cp $tmp/m.tsv $out; else grep -v -E "^($re)" $out 2>/dev/null | grep -vE "^($(cut -f1 $tmp/m.tsv | paste -sd'|'))	" > $tmp/o.tsv; cat $tmp/o.tsv $tmp/m.tsv | sort > $out; fi
 cat $tmp/m.tsv
